@@ -6,7 +6,8 @@ tie:    hand-written model AdeptModel/GradAlloc.lean  <->  Stack::register/unreg
         active FixedArray objects; every observable (returned index, i_gradient, max_gradients,
         n_gradients_registered, gap list, cursor position) compared exactly after every step.
         object layer AdeptModel/GradObj.lean (Active, Storage reference counting, Array/SpecialMatrix copy/link/view/resize/clear/
-        assign/swap, FixedArray, std::vector<adouble>, adouble[]) <-> the real objects: after EVERY step the allocator observables
+        assign/swap, FixedArray, std::vector<adouble>, adouble[], objects constructed from / assigned nested std::initializer_lists
+        (active and inactive Array and FixedArray, ranks 1..6), EMPTY views, link to a temporary view) <-> the real objects: after EVERY step the allocator observables
         plus, per live object, its gradient indices / (gradient_index, slots spanned, storage block, link count).
 oracle: bitmap of live slots computed from the implementation's own output (owners = scalars, fixed arrays, vector elements,
         storages; views must lie inside their storage; link counts must equal the number of live referents; objects an operation
@@ -19,7 +20,8 @@ LEVEL = "proof"
 REQUIRED = ["C08_inv_init", "C08_inv_step", "C08_inv_reachable", "C08_fresh_disjoint", "C08_fresh_disjoint1",
             "C08_live_distinct_below", "C08_recycled_never_shared", "C08_gaps_canonical", "C08_cursor_irrelevant",
             "C08_obj_history_legal", "C08_obj_prim_history_legal", "C08_obj_owners_disjoint", "C08_obj_views_within_owner",
-            "C08_obj_storage_live_iff_linked", "C08_obj_alloc_fault_registers_nothing"]
+            "C08_obj_storage_live_iff_linked", "C08_obj_alloc_fault_registers_nothing",
+            "C08_obj_list_fixed_registers_length", "C08_obj_list_array_registers_volume", "C08_obj_list_assign_registers_nothing"]
 NS = "Adept.GradAlloc."
 
 
@@ -215,6 +217,8 @@ def rand_dims(rng, kind, P):
         return [rng.choice([1, 1, 2, 3, 4, 5, 7])]
     if kind == 2:      # rows of at least two packets are padded to a multiple of the packet size
         return [rng.choice([1, 2, 3]), rng.choice([1, 2, 3, 2 * P, 2 * P + 1])]
+    if 4 <= kind <= 6:  # arrays of rank 4..6 come from initializer lists (`il`); resized to small shapes, sometimes with a padded last extent
+        return [rng.choice([1, 1, 2]) for _ in range(kind - 1)] + [rng.choice([1, 2, 2 * P + 1])]
     return [rng.choice([1, 2]), rng.choice([1, 2, 3]), rng.choice([1, 2, 2 * P + 1])]
 
 
@@ -232,10 +236,41 @@ def rand_spec(rng, dims):
     return out, newdims
 
 
+LIST_SHAPE = {1: [3], 2: [2, 3], 3: [2, 1, 2], 4: [1, 2, 1, 2], 5: [2, 1, 1, 2, 1], 6: [1, 1, 2, 1, 1, 2]}   # = LIST_SHAPES of the harness
+LIST_RANKS = (1, 2, 3, 4, 5, 6)      # rank 7: Array<7> / 7-dimensional FixedArray do not compile in the pinned tree (see DESIGN / harness)
+
+
+def empty_range(rng, d):
+    """an EMPTY selection r<lo>:<hi>:<st> of a dimension of length d >= 2: 0 <= hi < lo < d and lo < hi + 2*st"""
+    lo = rng.randrange(1, d)
+    st = rng.choice([1, 1, 2, 3])
+    hi = rng.randrange(max(0, lo - 2 * st + 1), lo)
+    return "r%d:%d:%d" % (lo, hi, st)
+
+
+def rand_spec_empty(rng, dims):
+    """one index per dimension; at least one of them an empty range (needs a dimension of length >= 2); returns (spec, rank) or None"""
+    big = [i for i, d in enumerate(dims) if d >= 2]
+    if not big:
+        return None
+    e = rng.choice(big)
+    out, nr = [], 0
+    for i, d in enumerate(dims):
+        if i == e or (d >= 2 and rng.random() < 0.2):
+            out.append(empty_range(rng, d)); nr += 1
+        elif rng.random() < 0.5:
+            out.append("f%d" % rng.randrange(d))
+        else:
+            lo = rng.randrange(d); hi = rng.randrange(lo, d); st = rng.choice([1, 1, 2])
+            out.append("r%d:%d:%d" % (lo, hi, st)); nr += 1
+    return out, nr
+
+
 class Gen:
     def __init__(self):
         self.nxt = 0
         self.scal, self.fixed, self.blks = [], [], []
+        self.lst = []        # objects made by `il` that are not active Arrays (inactive Array/FixedArray, active FixedArray)
         self.vecs = {}       # handle -> length
         self.arrs = {}       # handle -> [kind, dims or None]
 
@@ -244,10 +279,10 @@ class Gen:
         return self.nxt - 1
 
     def live(self):
-        return self.scal + self.fixed + self.blks + list(self.vecs) + list(self.arrs)
+        return self.scal + self.fixed + self.blks + self.lst + list(self.vecs) + list(self.arrs)
 
     def drop(self, k):
-        for l in (self.scal, self.fixed, self.blks):
+        for l in (self.scal, self.fixed, self.blks, self.lst):
             if k in l:
                 l.remove(k)
         self.vecs.pop(k, None); self.arrs.pop(k, None)
@@ -273,8 +308,49 @@ def random_obj_history(rng, length, P, pauses=False):
             hist.append("d %d" % k); g.drop(k)
             continue
         c = rng.choices(["scal", "fixed", "vn", "vp", "vo", "ve", "bn", "am", "amx", "cp", "sl", "ln", "cl", "rz", "rzx", "as", "alias", "sa",
-                         "sw", "nr"],
-                        [10, 3, 1.5, 6, 1, 1, 1.5, 8, 1.5, 5, 6, 4, 2, 3, 1, 3, 1.5, 1.5, 1, 0.7])[0]
+                         "sw", "nr", "il", "al", "sle", "lt"],
+                        [10, 3, 1.5, 6, 1, 1, 1.5, 8, 1.5, 5, 6, 4, 2, 3, 1, 3, 1.5, 1.5, 1, 0.7, 4, 2, 3, 2.5])[0]
+        if c == "il":
+            # an object constructed from a nested initializer list: every class x every rank x full / ragged
+            k = g.fresh(); cls = rng.randrange(4); r = rng.choice(LIST_RANKS)
+            hist.append("il %d %d %d %d" % (k, cls, r, rng.randrange(2)))
+            if cls == 0:
+                g.arrs[k] = [r, list(LIST_SHAPE[r])]
+            else:
+                g.lst.append(k)
+            continue
+        if c == "al":
+            # assignment from an initializer list: to a list-made object, to an EMPTY array (it is resized), to an array of the list's shape
+            cand = list(g.lst) + [k for k in arrs if g.arrs[k][0] in LIST_SHAPE and (g.arrs[k][1] is None or g.arrs[k][1] == LIST_SHAPE[g.arrs[k][0]])]
+            if cand:
+                k = rng.choice(cand); hist.append("al %d %d" % (k, rng.randrange(2)))
+                if k in g.arrs:
+                    g.arrs[k] = [g.arrs[k][0], list(LIST_SHAPE[g.arrs[k][0]])]
+            continue
+        if c == "sle":
+            # an EMPTY view (zero extent in some position) of a live array
+            cand = [k for k in nonempty if g.arrs[k][0] < 4]
+            if cand:
+                s = rng.choice(cand); sp = rand_spec_empty(rng, g.arrs[s][1])
+                if sp:
+                    k = g.fresh(); hist.append("sl %d %d %s" % (k, s, " ".join(sp[0]))); g.arrs[k] = [sp[1], None, "view"]
+            continue
+        if c == "lt":
+            # link to a TEMPORARY view (operator>>=(Array&&)); sometimes an empty one
+            cand = [k for k in nonempty if g.arrs[k][0] < 4]
+            if cand:
+                s = rng.choice(cand)
+                if rng.random() < 0.25:
+                    sp = rand_spec_empty(rng, g.arrs[s][1]); nd = None
+                    if not sp:
+                        continue
+                    spec, nr = sp
+                else:
+                    spec, nd = rand_spec(rng, g.arrs[s][1]); nr = len(nd)
+                dst = [k for k in arrs if k != s and g.arrs[k][0] == nr]
+                if dst:
+                    k = rng.choice(dst); hist.append("lt %d %d %s" % (k, s, " ".join(spec))); g.arrs[k] = [nr, nd, "view"]
+            continue
         if c == "scal":
             k = g.fresh()
             q = rng.random()
@@ -317,9 +393,9 @@ def random_obj_history(rng, length, P, pauses=False):
             hist.append("amx %d %d %s" % (k, kind, " ".join(map(str, d))))
         elif c == "cp" and arrs:
             k = g.fresh(); s = rng.choice(arrs)
-            hist.append("cp %d %d" % (k, s)); g.arrs[k] = [g.arrs[s][0], g.arrs[s][1]]
+            hist.append("cp %d %d" % (k, s)); g.arrs[k] = list(g.arrs[s])
         elif c == "sl":
-            cand = [k for k in nonempty if g.arrs[k][0] < 10]
+            cand = [k for k in nonempty if g.arrs[k][0] < 4]
             if cand:
                 s = rng.choice(cand); k = g.fresh()
                 spec, nd = rand_spec(rng, g.arrs[s][1])
@@ -332,6 +408,8 @@ def random_obj_history(rng, length, P, pauses=False):
                 hist.append("ln %d %d" % (k, s))
                 if g.arrs[s][1] is not None:
                     g.arrs[k][1] = g.arrs[s][1]
+                elif len(g.arrs[s]) > 2:
+                    g.arrs[k] = [g.arrs[k][0], None, "view"]     # linked to an empty VIEW (data_ non-null): an empty view itself
         elif c == "cl" and arrs:
             k = rng.choice(arrs); hist.append("cl %d" % k); g.arrs[k][1] = None
         elif c in ("rz", "rzx") and arrs:
@@ -483,9 +561,71 @@ def directed_misc(P):
     return out
 
 
+def directed_lists(P):
+    """objects CONSTRUCTED FROM / ASSIGNED FROM nested initializer lists: every class (active/inactive Array, active/inactive FixedArray) x
+    every rank that compiles (1..6) x full and ragged lists, between scalars, with gaps open, destroyed in both orders; assignment of a list
+    to an empty array, to an empty VIEW, to an array of the list's shape, to a cleared list-made array"""
+    out = []
+    for cls in range(4):
+        for r in LIST_RANKS:
+            for v in (0, 1):
+                h = ["a1 0", "il 1 %d %d %d" % (cls, r, v), "a1 2", "al 1 %d" % (1 - v), "il 3 %d %d %d" % (cls, r, 1 - v), "d 0", "a1 4", "d 1",
+                     "il 5 %d %d %d" % (cls, r, v), "am 6 1 3", "d 3", "il 7 %d %d %d" % (cls, r, v), "al 5 %d" % v, "d 2", "d 5", "a1 8", "d 7", "il 9 %d %d 0" % (cls, r),
+                     "d 6", "d 9", "d 4", "d 8", "nr", "il 10 %d %d %d" % (cls, r, v)]
+                out.append(h)
+    for r in LIST_RANKS:
+        ds = " ".join(map(str, LIST_SHAPE[r])); zero = " ".join(["0"] * r)
+        for v in (0, 1):
+            # default-constructed then assigned; constructed with the shape then assigned; cleared then assigned; copy shares, list assignment keeps it
+            out.append(["a1 0", "am 1 %d %s" % (r, zero), "al 1 %d" % v, "a1 2", "am 3 %d %s" % (r, ds), "al 3 %d" % v, "cp 4 1", "al 4 %d" % (1 - v),
+                        "cl 1", "al 1 %d" % v, "d 0", "il 5 0 %d %d" % (r, v), "ln 5 1", "al 5 %d" % v, "cl 5", "cl 4", "al 5 %d" % (1 - v), "d 1", "d 3",
+                        "a1 6", "d 5", "d 4", "d 2", "d 6"])
+    return out
+
+
+def directed_empty_views(P):
+    """EMPTY views (zero extent in every position in turn, strides 1 and 2) of vectors, matrices (padded rows too) and 3-D arrays: taken and
+    dropped with the parent alive, kept beyond the parent, copied, linked to, assigned to (they are resized), list-assigned; link to a
+    temporary view (empty and not)"""
+    out = []
+    shapes = {1: [[2], [5]], 2: [[2, 3], [3, 2 * P + 1]], 3: [[2, 2, 2], [2, 3, 2 * P]]}
+    for kind in (1, 2, 3):
+        for d in shapes[kind]:
+            ds = " ".join(map(str, d))
+            for pos in range(kind):
+                for (lo, hi, st) in ((1, 0, 1), (d[pos] - 1, max(0, d[pos] - 3), 2)):
+                    for others in ("r", "f"):
+                        spec = []
+                        for i in range(kind):
+                            if i == pos:
+                                spec.append("r%d:%d:%d" % (lo, hi, st))
+                            else:
+                                spec.append("r0:%d:1" % (d[i] - 1) if others == "r" else "f%d" % (d[i] - 1))
+                        nr = sum(1 for x in spec if x[0] == "r")
+                        sp = " ".join(spec)
+                        full = " ".join("r0:%d:1" % (x - 1) for x in d)
+                        zero = " ".join(["0"] * nr)
+                        # taken and dropped while the parent lives; then everything must still be there
+                        out.append(["a1 0", "am 1 %d %s" % (kind, ds), "a1 2", "sl 3 1 %s" % sp, "d 3", "am 4 %d %s" % (kind, ds), "sl 5 1 %s" % sp, "cp 6 5",
+                                    "d 5", "a1 7", "d 6", "am 8 1 3", "d 1", "am 9 %d %s" % (kind, ds), "d 0", "d 2", "d 4", "d 7", "d 8", "d 9"])
+                        # kept beyond the parent; linked to; assigned to (resize); list-assigned; link to temporaries
+                        h = ["a1 0", "am 1 %d %s" % (kind, ds), "sl 2 1 %s" % sp, "am 3 %d %s" % (nr, zero), "ln 3 2", "d 1", "a1 4",
+                             "am 5 %d %s" % (kind, ds), "d 2", "am 6 1 2", "d 3", "am 7 %d %s" % (kind, ds), "sl 8 7 %s" % sp, "am 9 %d %s" % (nr, zero),
+                             "lt 9 7 %s" % sp, "a1 10"]
+                        if nr in LIST_SHAPE:
+                            h += ["al 8 0", "a1 11", "al 8 1"]
+                        h += ["d 7", "am 12 %d %s" % (kind, zero if False else ds), "lt 9 12 %s" % sp, "d 12", "am 13 1 2", "d 9", "d 8", "d 5", "d 0", "a1 14"]
+                        out.append(h)
+                        if nr == kind:
+                            out.append(["am 1 %d %s" % (kind, ds), "a1 0", "am 2 %d %s" % (kind, ds), "sl 3 1 %s" % sp, "as 3 2", "sl 4 1 %s" % sp, "sl 5 2 %s" % sp,
+                                        "as 4 5", "d 1", "a1 6", "am 7 %d %s" % (kind, ds), "lt 7 2 %s" % full, "d 2", "am 8 1 4", "lt 3 7 %s" % full, "d 7", "d 3",
+                                        "d 4", "d 5", "a1 9"])
+    return out
+
+
 # ------------------------------------------------------------------ object layer: oracle
 import re
-ENT = re.compile(r"(\d+)=([SFVBA])(\d*)\[([^\]]*)\](?:c(\d+))?")
+ENT = re.compile(r"(\d+)=([SFVBAI])(\d*)\[([^\]]*)\](?:c(\d+))?")
 
 
 def parse_dump(text):
@@ -499,7 +639,11 @@ def parse_dump(text):
         k, t, kind, body, cap = m.groups()
         k = int(k)
         try:
-            if t in "SB":
+            if t == "I":
+                if body:
+                    return None
+                out[k] = ("I",)            # inactive object: holds no gradient slot
+            elif t in "SB":
                 out[k] = (t, [int(x) for x in body.split(",") if x])
             elif t == "V":
                 out[k] = ("V", [int(x) for x in body.split(",") if x], int(cap))
@@ -561,6 +705,8 @@ def obj_oracle(hist, lines):
                 blocks = [(x, 1) for x in e[1]]
             elif e[0] == "F":
                 blocks = [(e[1], e[2])]
+            elif e[0] == "I":
+                pass
             elif e[2] is not None:
                 _, kind, g, span, sgi, sn, links, doff = e
                 if sgi < 0 or sn < 1:
@@ -568,7 +714,7 @@ def obj_oracle(hist, lines):
                 if g != sgi + doff:
                     return i, ("array %d: element at data offset %d of its storage has gradient index %d, the storage gives it %d"
                                % (k, doff, g, sgi + doff))
-                if not (sgi <= g and g + span <= sgi + sn and span >= 1):
+                if not (sgi <= g and g + span <= sgi + sn and span >= 0 and (span >= 1 or g < sgi + sn)):      # span 0: an empty view
                     return i, "array %d addresses slots [%d,%d) outside the block [%d,%d) of its storage" % (k, g, g + span, sgi, sgi + sn)
                 stor.setdefault((sgi, sn), []).append((k, links))
             for (a, n) in blocks:
@@ -597,6 +743,8 @@ def obj_oracle(hist, lines):
         k = int(w[1]) if len(w) > 1 else None
         touched = set()
         create = {"a1": "S", "ap": "S", "ac": "S", "ae": "S", "at": "S", "af": "F", "vn": "V", "bn": "B", "am": "A", "av": "A", "cp": "A", "sl": "A"}
+        if c == "il":
+            create = {"il": "AIFI"[int(w[2])]}
         if c in create:
             touched = {k}
             if k in prev:
@@ -610,7 +758,7 @@ def obj_oracle(hist, lines):
             touched = {k}
             if k in cur:
                 return i, "%s: object still reported" % op
-        elif c in ("vp", "vo", "ve", "ln", "as", "rz", "rzx", "rs", "cl"):
+        elif c in ("vp", "vo", "ve", "ln", "as", "rz", "rzx", "rs", "cl", "al", "lt"):
             touched = {k}
         elif c == "sa":
             touched = {k, int(w[2])}
@@ -637,7 +785,27 @@ def obj_oracle(hist, lines):
             g = e[1][0] if e[0] == "S" else e[1] if e[0] == "F" else e[2]
             if g != d["ret"]:
                 return i, "%s: returned index %s but the object reports %s" % (op, d["ret"], g)
-        if c == "af" and e[2] != int(w[2]):
+        def is_empty(x):
+            return x[2] is None or x[3] == 0          # no storage, or an empty view (no element)
+        if c == "il":
+            cls, r = int(w[2]), int(w[3])
+            nel = prod(LIST_SHAPE[r])
+            if cls == 0:
+                # an active Array made from a list owns a NEW storage alone, with a slot for every element of the list's shape
+                msg = ("il: wrong rank %s" % (e,)) if e[1] != r else fresh_array(e, nel, nel if r == 1 else None)
+            elif cls == 2 and e[2] != nel:
+                msg = "active FixedArray of %d elements made from a list reports %d slots" % (nel, e[2])
+        elif c == "al":
+            if e != prev[k] and not (e[0] == "A" and is_empty(prev[k])):
+                msg = "assignment of an initializer list changed what object %d holds: %s -> %s" % (k, prev[k], e)
+            elif e[0] == "A" and is_empty(prev[k]):
+                nel = prod(LIST_SHAPE[e[1]])
+                msg = fresh_array(e, nel, nel if e[1] == 1 else None)       # an empty() array is resized to the shape of the list
+        elif c == "lt":
+            s0 = cur[int(w[2])]
+            if e[2] is None or s0[2] is None or e[4:7] != s0[4:7] or not (s0[2] <= e[2] and e[2] + e[3] <= s0[2] + s0[3]):
+                msg = "array linked to a temporary view %s is not inside the source %s" % (e, s0)
+        elif c == "af" and e[2] != int(w[2]):
             msg = "FixedArray of %s reports %d slots" % (w[2], e[2])
         elif c == "bn" and len(e[1]) != int(w[2]):
             msg = "adouble[%s] reports %d indices" % (w[2], len(e[1]))
@@ -678,9 +846,12 @@ def obj_oracle(hist, lines):
                 msg = "view %s is not inside its source %s" % (e, s)
         elif c == "as":
             s = prev[int(w[2])]
-            if prev[k][2] is None and s[2] is not None:
-                if e[2] is None or e[6] != 1 or e[2] != e[4] or e[1] != s[1]:
+            if is_empty(prev[k]) and not is_empty(s):
+                if e[2] is None or e[6] != 1 or e[2] != e[4] or e[1] != s[1] or e[3] == 0:
                     msg = "assignment to an empty array must allocate a storage of its own: %s" % (e,)
+            elif is_empty(prev[k]):
+                if e[2] is not None:
+                    msg = "assignment of an empty array to an empty array must leave it without storage: %s" % (e,)
             elif nolinks(e) != nolinks(prev[k]):
                 msg = "assignment to a non-empty array moved it: %s -> %s" % (prev[k], e)
         elif c == "sa":
@@ -883,8 +1054,18 @@ def run(ctx, replay):
     for label, e in builds:
         P = packet_size(e)
         ctx.notes["object_layer"]["packet_size"] = P
-        dirs = directed_obj(P) + directed_misc(P)
+        dl, de = directed_lists(P), directed_empty_views(P)
+        dirs = directed_obj(P) + directed_misc(P) + dl + de
         ctx.notes["object_layer"]["directed_histories"] = len(dirs)
+        ctx.notes["object_layer"]["directed_initializer_list_histories"] = len(dl)
+        ctx.notes["object_layer"]["directed_empty_view_and_link_to_temporary_histories"] = len(de)
+        ctx.notes["object_layer"]["initializer_list_distribution"] = (
+            "directed, every run: 4 classes (active/inactive Array, active/inactive FixedArray) x ranks 1..6 x full/ragged list, constructed and "
+            "assigned (rank 7 does not compile in the pinned tree); random: `il` weight 4 of ~72 (class, rank, raggedness uniform), `al` weight 2")
+        ctx.notes["object_layer"]["empty_view_distribution"] = (
+            "directed, every run: ranks 1..3 x 2 shapes (padded rows included) x empty range in every position x (lo,hi,st) in {(1,0,1),(d-1,d-3,2)} x "
+            "other positions ranges/integers; random: `sle` weight 3 (empty range r<lo>:<hi>:<st>, 0<=hi<lo<d, lo<hi+2st), `lt` weight 2.5 (a quarter "
+            "of them to an empty temporary)")
         rnd_o = [random_obj_history(ctx.rng, len_o, P, pauses=(label == "pausable")) for _ in range(n_o)]
         if load_corpus("C08obj"):
             bad += run_obj_batch(ctx, e, load_corpus("C08obj"), label, P)
@@ -905,7 +1086,9 @@ def run(ctx, replay):
                         "object; directed sweep: 7 array types x padded and unpadded shapes x every destruction order of copy, link and views "
                         "after the parent, and directed programs for swap / assignment to an empty array / aliased assignment / scalar copies, "
                         "temporaries and std::swap over open gaps / std::vector growth over four reallocations / adouble[n] and FixedArray "
-                        "freed in every order; %d random histories of length %d over 31 operation kinds (weights in random_obj_history; counts "
+                        "freed in every order; objects constructed from / assigned from nested std::initializer_lists (4 classes x ranks 1..6 x "
+                        "full/ragged); EMPTY views (zero extent in every position) taken, dropped, copied, linked, assigned to, outliving the parent; "
+                        "link to temporary views (operator>>=(Array&&)); %d random histories of length %d over 35 operation kinds (weights in random_obj_history; counts "
                         "in object_ops_executed)" % (LO, n_o, len_o))
     ctx.assumptions += ["`Legal` (a release names a live block) is no longer assumed: theorem C08_obj_history_legal derives it for every "
                         "history of the object layer AdeptModel/GradObj.lean; that the C++ objects perform the member-level actions the "
